@@ -532,3 +532,82 @@ func min(a, b int) int {
 var _ = hex.EncodeToString
 var _ = os.Getenv
 var _ = exec.Command
+
+// TestCrashSweep enumerates EVERY crash point of one delivery: for a generated tree and schedule the
+// last delivery (biased to be a reorg) is repeated on a fresh node once per store write n = 1..W,
+// with write n and all later ones dropped, followed by a restart and the full invariant check.
+func TestCrashSweep(t *testing.T) {
+	stats.Check(t, 1, 6, func(t *rapid.T) {
+		tr := buildTree(t)
+		if len(tr.blocks) < 3 {
+			t.Skip("tree too small")
+		}
+		// schedule: blocks in creation order; the swept operation is the delivery of the last block that
+		// forks off (its parent is not the previously created block), else the last block
+		target := len(tr.blocks) - 1
+		for i := len(tr.blocks) - 1; i >= 1; i-- {
+			if tr.blocks[i].parent != tr.blocks[i-1] {
+				target = i
+				break
+			}
+		}
+		prefix := tr.blocks[:target]
+		op := tr.blocks[target]
+		run := func(crashAt int64) (writes int64, dropped int64, old, now *mblock, err error) {
+			n, e := boot.Start()
+			if e != nil {
+				return 0, 0, nil, nil, fmt.Errorf("VERIF-INCONCLUSIVE boot: %v", e)
+			}
+			defer n.Stop()
+			refillPool(tr)
+			for _, b := range prefix {
+				if _, p := deliver(b); p != nil {
+					return 0, 0, nil, nil, fmt.Errorf("prefix delivery of %s panicked: %v", b.name(), p)
+				}
+			}
+			old, e = checkInvariants(tr, "before the swept delivery", true)
+			if e != nil {
+				return 0, 0, nil, nil, e
+			}
+			w0 := db.VerifWriteCount()
+			if crashAt > 0 {
+				db.VerifArmCrash(crashAt)
+			}
+			deliver(op)
+			if crashAt > 0 {
+				dropped = db.VerifDisarm()
+			}
+			writes = db.VerifWriteCount() - w0
+			if e := n.Restart(); e != nil {
+				return writes, dropped, old, nil, fmt.Errorf("restart after crash at write %d of deliver %s failed: %v", crashAt, op.name(), e)
+			}
+			refillPool(tr)
+			now, e = checkInvariants(tr, fmt.Sprintf("after crash at write %d of deliver %s + restart", crashAt, op.name()), false)
+			return writes, dropped, old, now, e
+		}
+		w, _, old, final, err := run(0)
+		if err != nil {
+			t.Fatalf("%v\ntree: %s", err, tr.describe())
+		}
+		reorg := !isAncestor(old, final)
+		for nth := int64(1); nth <= w; nth++ {
+			_, dropped, old2, now, err := run(nth)
+			if err != nil {
+				t.Fatalf("%v\ntree: %s\nswept delivery: %s (un-crashed: %d writes, head %s -> %s)", err, tr.describe(), op.name(), w, old.name(), final.name())
+			}
+			f := lca(old2, op)
+			if !(isAncestor(f, now) && (isAncestor(now, old2) || isAncestor(now, op) || isAncestor(op, now))) {
+				t.Fatalf("crash at write %d/%d of deliver %s (old head %s): head after restart is %s, neither old head, new head nor between them and %s\ntree: %s",
+					nth, w, op.name(), old2.name(), now.name(), f.name(), tr.describe())
+			}
+			stats.NonTrivialOnly(fmt.Sprintf("sweep|%s|%s|%d", tr.shape(), op.name(), nth))
+			stats.Evals(1)
+			if dropped > 0 {
+				stats.Count("sweep_crash_points", 1)
+			}
+		}
+		stats.Exhaustive("every store write of the swept delivery")
+		stats.Case("sweep|"+tr.shape()+"|"+op.name(), fmt.Sprintf("sweep_reorg_%v", reorg), fmt.Sprintf("sweep_writes_%02d", w))
+		stats.Sample(map[string]interface{}{"sweep_of": op.name(), "writes": w, "reorg": reorg, "tree": tr.describe()})
+	})
+}
